@@ -16,6 +16,8 @@ import os
 from . import tables as T
 from . import wire as W
 from .facts import DE
+from . import hirq as H
+from .oblig_mono import Reach, hir_fn_for
 from .engine import VERIF
 
 LEVEL = "other"
@@ -91,6 +93,54 @@ def run(ctx):
         for k in sorted(set(found) | set(documented)):
             ctx.oblige("C12|lossy|%s|%s" % k, found.get(k) == documented.get(k),
                        "%s.%s: custom decoder %s, documented %s" % (k[0], k[1], found.get(k), documented.get(k)), cfg=cfg)
+        # nothing on the decode path narrows an integer with `as`: a value that was accepted must not be wrapped to fit
+        r = F.mono_root("ctap2::Request::<'a>::deserialize")
+        if ctx.oblige("C12|root", r is not None and "inst" in r, "anchor missing: mono root Request::deserialize", cfg=cfg, nontrivial=False):
+            R = Reach(F, r["inst"])
+            seen_fn = set()
+            n_casts = 0
+            bits = {"u8": 8, "i8": 8, "u16": 16, "i16": 16, "u32": 32, "i32": 32, "u64": 64, "i64": 64, "usize": 64, "isize": 64, "u128": 128, "i128": 128}
+            for inst in R.local:
+                fn = hir_fn_for(F, inst)
+                if fn is None or fn["id"] in seen_fn:
+                    continue
+                seen_fn.add(fn["id"])
+                for x in H.walk(fn["body"]):
+                    if x.get("k") == "cast" and x.get("from") in bits and x.get("ty") in bits:
+                        n_casts += 1
+                        fb, tb = bits[x["from"]], bits[x["ty"]]
+                        ctx.oblige("C12|narrowing-cast|%s|%s->%s" % (fn["path"][:90], x["from"], x["ty"]), tb >= fb,
+                                   "%s narrows a decoded integer with `as` (%s -> %s): values beyond the target range are wrapped instead of rejected" % (fn["path"][:120], x["from"], x["ty"]),
+                                   cfg=cfg, where=H.line(x))
+            ctx.extra.setdefault("integer_casts_on_decode_path", {})[cfg] = n_casts
+            ctx.floor("decode-path functions scanned for narrowing casts", len(seen_fn), 60, cfg=cfg)
+        # hand-written decoders read exactly the documented (bounded) element types
+        want_leaves = {
+            "<webauthn::Icon as serde_core::de::Deserialize<'de>>::deserialize": {"&str"},
+            "webauthn::deserialize_from_str_and_skip_if_too_long": {"&str"},
+            "webauthn::deserialize_from_str_and_truncate": {"core::option::Option<&str>"},
+            "<<ctap2::AttestationFormatsPreference as serde_core::de::Deserialize<'de>>::deserialize::ValueVisitor as serde_core::de::Visitor<'de>>::visit_seq": {"&str"},
+            "<<webauthn::FilteredPublicKeyCredentialParameters as serde_core::de::Deserialize<'de>>::deserialize::ValueVisitor as serde_core::de::Visitor<'de>>::visit_seq": {"webauthn::PublicKeyCredentialParameters"},
+        }
+        got_leaves = {}
+        for f in F.fns:
+            if f["pv"] != "user":
+                continue
+            for x in H.walk(f["body"]):
+                if x.get("pv") != "user":
+                    continue
+                c = x.get("callee")
+                ta = x.get("targs") or []
+                t = None
+                if c == "serde_core::de::Deserialize::deserialize" and ta:
+                    t = ta[0]
+                elif c in ("serde_core::de::SeqAccess::next_element", "serde_core::de::MapAccess::next_value", "serde_core::de::MapAccess::next_key") and len(ta) > 1:
+                    t = ta[1]
+                if t is not None:
+                    got_leaves.setdefault(f["path"], set()).add(W.erase_lt(t))
+        for path in sorted(set(got_leaves) | set(want_leaves)):
+            ctx.oblige("C12|handwritten-leaf|" + path, got_leaves.get(path) == want_leaves.get(path),
+                       "hand-written decoder %s reads %s, documented %s: the declared width / capacity of the member is bypassed" % (path, sorted(got_leaves.get(path, [])), sorted(want_leaves.get(path, []))), cfg=cfg)
         hand = sorted({(f["impl"]["self_ty"].get("path") or f["impl"]["self_ty"]["s"]) for f in F.fns
                        if f["name"] == "deserialize" and (f.get("impl") or {}).get("trait") == DE and f["impl"].get("impl_pv") == "user"
                        and "__" not in f["impl"]["self_ty"]["s"] and "::deserialize::" not in f["impl"]["self_ty"]["s"]})
